@@ -416,7 +416,8 @@ class MinFlowDecompCycles(walkmodel.AbstractWalkModelDiGraph):
         # Checking if we have been given some lowerbound to start with
         self._lowerbound_k = self.optimization_options.get("lowerbound_k", 1)
 
-        self._lowerbound_k = max(self._lowerbound_k, stDiGraph.get_width(edges_to_ignore=self.edges_to_ignore))
+        # The synthetic source/sink edges need not be covered by the walks
+        self._lowerbound_k = max(self._lowerbound_k, stDiGraph.get_width(edges_to_ignore=list(self.edges_to_ignore) + list(stDiGraph.source_sink_edges)))
 
         if self.optimization_options.get("use_min_gen_set_lowerbound", MinFlowDecompCycles.use_min_gen_set_lowerbound):  
             mingenset_lowerbound = self._get_lowerbound_with_min_gen_set()
